@@ -4,8 +4,9 @@ from translators import tr_c14
 PID = "C14"
 CLAIM = True
 MANIFEST_TEXT = ("Lean 4 theorems, for every rank and all extents (0 and 1 included), about a model whose offset/stride/"
-                 "product/span-size/size() loops are assembled from pieces regenerated from layout_left.hh, layout_right.hh, "
-                 "layout_stride.hh, extents.hh, mdspan.hh and mdarray.hh on every run: offsets of valid index tuples lie in "
+                 "product/span-size/size() loops, the summand of layout_stride's fold expression and the container element "
+                 "counts of the mdarray constructors from a mapping and from an mdspan are regenerated from layout_left.hh, "
+                 "layout_right.hh, layout_stride.hh, extents.hh, mdspan.hh and mdarray.hh on every run: offsets of valid index tuples lie in "
                  "[0, required_span_size), are injective (left/right always; strided under the sorted-stride criterion, "
                  "dimensions of extent 1 ignored), change by stride(r) per unit step, equal the column-/row-major closed form, "
                  "fill the range without gaps (left/right); no intermediate value of the offset loops exceeds the final offset "
@@ -15,8 +16,12 @@ MANIFEST_TEXT = ("Lean 4 theorems, for every rank and all extents (0 and 1 inclu
                  "static/dynamic extent index table and all extents constructors (incl. value-initialisation) are correct; "
                  "mdspan/mdarray access stays inside storage of required_span_size elements and hits exactly the designated "
                  "element for EVERY unique mapping and every accessor policy access(p,i)=p[pos i] with pos injective on the span; "
-                 "arrays built from views with ANY accessor policy (an arbitrary function of the offset) hold at every index what "
-                 "the view yields there and own exactly the required span; size() of an array counts the index tuples whatever "
+                 "arrays with EVERY unique mapping (left, right, strided: padded, permuted, non-exhaustive user layout policies) "
+                 "built from views with ANY accessor policy (an arbitrary function of the offset) hold at every index what "
+                 "the view yields there and own exactly the required span of the mapping they adopt (round four: the real code "
+                 "allocated other.size() elements and overflowed for non-exhaustive layouts, fixed by C14_mdarray_span_size); after "
+                 "ANY history of assignments every index reads the last value assigned to it (induction over histories); "
+                 "is_exhaustive() of a unique strided mapping is true iff its range has no gaps (pigeonhole); size() of an array counts the index tuples whatever "
                  "container it owns (re-used larger buffers, std::array<T,N> with N above the product), writes never touch the "
                  "surplus; the stride()/product()/size()/required_span_size() loops never exceed their result for non-empty "
                  "index spaces and stride(i)*extent(i) <= required_span_size (no overflow in ANY index type whose range holds "
@@ -25,7 +30,9 @@ MANIFEST_TEXT = ("Lean 4 theorems, for every rank and all extents (0 and 1 inclu
                  "part up to 8), 35 static/dynamic patterns, index types int/size_t/short/long, all index tuples, every public "
                  "constructor of extents/mappings/mdspan/mdarray/span, containers with 0..6 surplus elements, a recording custom "
                  "accessor with a non-pointer data handle and an interleaved accessor access(p,i)=p[2i+1] for views and for "
-                 "arrays built from views; plus huge index spaces up to the limit of each index type (2^15-1, 2^31-1, 2^61) "
+                 "arrays built from views; owning arrays with a strided layout policy (PadLayout over layout_stride::mapping: "
+                 "padded/permuted strides, all mapping-, container- and view-taking constructors, conversions, views); deduction "
+                 "guides of mdarray/mdspan and default_accessor used directly; plus huge index spaces up to the limit of each index type (2^15-1, 2^31-1, 2^61) "
                  "observed at sampled index tuples incl. conversions to layout_stride/dextents and back) with an independent "
                  "enumeration-order / digit-decoding / 128-bit oracle, pointer-identity and accessor-log checks and ASan/UBSan.")
 MANIFEST_NOTE = ("Trusted: Lean kernel (+propext/Classical.choice/Quot.sound), tr_c14.py, the hand-written loop skeletons of "
@@ -35,9 +42,11 @@ MANIFEST_NOTE = ("Trusted: Lean kernel (+propext/Classical.choice/Quot.sound), t
                  "these loops out in index_type (and not in a narrower type) is established by the bigmap run only (extents up "
                  "to the limit of int/short/size_t/long, required span <= the type's maximum resp. 2^61); an empty index "
                  "space whose other extents multiply beyond index_type is outside.  is_exhaustive() of strided "
-                 "mappings is corresponded and checked by the oracle but not the subject of a theorem.  Containers other "
-                 "than std::vector/std::array, the C++23 multidimensional operator[] and the deduction guides of "
-                 "mdspan/mdarray are not exercised.")
+                 "mappings: the theorem (true iff no gaps) is about the hand-written model of its expression, tied by the "
+                 "differential run and the oracle.  User layout policies are represented by one policy over "
+                 "layout_stride::mapping (arbitrary unique stride vectors); conversions between user layouts that change the "
+                 "padding are not exercised.  Containers other than std::vector/std::array, the C++23 multidimensional "
+                 "operator[], accessors with proxy references and the guides mdspan(CArray&)/mdspan(Pointer&&) are not exercised.")
 TECHNIQUE = "Lean 4 proof over loop model + translator for the loop pieces + differential correspondence with enumeration oracle"
 TRANSLATORS = [tr_c14.translate]
 HARNESS = dict(
@@ -47,7 +56,10 @@ HARNESS = dict(
     # here (null/alignment/vptr/object-size); ASan, signed overflow, shifts and bounds stay on
     flags=["-O0", "-g1", "-fno-sanitize=null,alignment,vptr,object-size,nonnull-attribute,returns-nonnull-attribute"],
 )
-RULE = ("cases: (a) enumeration of every instantiated extents type (32 static/dynamic patterns, ranks 0..4, index types "
+RULE = ("round four: a quarter of the mdarray cases use an array with a strided layout policy (op `mdarray IT PAT stride CTOR ACC "
+        "EXTS STRIDES [pad=K]`; strides from the same generator as for mappings, non-unique ones are bad-op on both sides; about a "
+        "fifth of them non-exhaustive); the `cont`/`copy` forms also run the deduction-guide and default_accessor checks.  "
+        "cases: (a) enumeration of every instantiated extents type (32 static/dynamic patterns, ranks 0..4, index types "
         "int/size_t/short) x layout left/right/stride x all dynamic extents in 0..3 (quick) / 0..4 (thorough), each case "
         "covering ALL index tuples of the index space; (b) random mix of map/conv/mdspan/mdarray/span operations (all constructor forms of "
         "extents, mappings, views, arrays and spans; recording and interleaved custom accessors, also as source of mdarray(mdspan); "
@@ -61,9 +73,10 @@ RULE = ("cases: (a) enumeration of every instantiated extents type (32 static/dy
         "both sides and counted trivial)")
 ASSUMPTIONS = [
     "the loop skeletons in lean/DuneVerif/Model/C14.lean are hand-written; their fidelity to the C++ templates rests on this differential run",
-    "the loop pieces (initial value, bounds, step) of operator(), stride(i), product(), layout_stride size() and mdspan/mdarray size() are regenerated from the sources by tools/translators/tr_c14.py",
+    "the loop pieces (initial value, bounds, step) of operator(), stride(i), product(), layout_stride size() and mdspan/mdarray size(), the summand/initial value of layout_stride's fold expression and the container element counts of mdarray(mapping...) / mdarray(mdspan[, alloc]) are regenerated from the sources by tools/translators/tr_c14.py",
     "index arithmetic over Nat: required_span_size (with extents 0 counted as 1) fits index_type (map/conv/mdspan/mdarray: extents <= 8, strides <= 1000; bigmap: up to 32767 / 2^31-1 / 2^61)",
-    "the tree under test contains fixes/C14_from_stride.patch, C14_mdspan_convert.patch and C14_mdarray_alloc.patch (the harness instantiates the constructors they repair); without fixes/C14_stride_rank0.patch the rank-0 strided cases are reported as violations",
+    "the tree under test contains fixes/C14_from_stride.patch, C14_mdspan_convert.patch and C14_mdarray_alloc.patch (the harness instantiates the constructors they repair); without fixes/C14_stride_rank0.patch the rank-0 strided cases are reported as violations; without fixes/C14_mdarray_span_size.patch the theorem mdarray_from_view_alloc fails (broken obligation) and the padded-array cases crash under ASan (replay `mdarray size dd stride span call [2,3] [4,1]`)",
+    "user-supplied layout policies are represented by PadLayout (harness), whose mapping is Dune's layout_stride::mapping; the theorems quantify over every mapping satisfying InjOn",
 ]
 TRUSTED = ["g++/libstdc++, ASan/UBSan", "translator tr_c14.py", "harness/cxx_c14.cc (oracle: enumeration order, std::set, pointer identity, accessor log; bigmap: digit decoding and __int128 sums) + Driver/C14.lean parsing/printing"]
 
